@@ -38,7 +38,8 @@ CONSTANTS Names,       \* the field-name universe
           ClientNames, \* names a client may send
           Reserved,    \* names in Refinery's metadataFields
           KeyFields,   \* the sampler's key fields (memoized at construction on "msgp"/"jsonbatch")
-          TsNames,     \* names whose client value may be a msgpack timestamp
+          TsNames,     \* names whose client value may be (or contain) a msgpack timestamp
+          TsPaths,     \* msgpack paths on which timestamps are enumerated
           Settable,    \* names Refinery sets (meta.* and additional attributes)
           SetVals,     \* tokens of the values it sets
           MemoSets,    \* key sets MemoizeFields is called with
@@ -72,7 +73,7 @@ Abs == [built |-> built, out |-> [n \in Names |-> OutVal(n)]]
 Init == /\ path \in Paths
         /\ client \in SUBSET ClientNames
         /\ ts \in SUBSET (TsNames \cap client)
-        /\ (path \notin {"msgp", "metaonly", "umsg"} => ts = {})   \* JSON has no timestamps
+        /\ (path \notin TsPaths => ts = {})   \* JSON has no timestamps
         /\ vs \in Variants
         /\ built = FALSE /\ extracted = FALSE
         /\ memo = {} /\ missing = {}
